@@ -295,6 +295,12 @@ func runC12(cfg *Cfg, rec *ev.Rec) {
 			judgeConvPub(rec, ks[i], cs[i])
 		}
 	}
+	xk, xc := gen.SmallXKeys()
+	for i := range xk {
+		if cfg.mine(i) {
+			judgeConvPub(rec, xk[i], xc[i])
+		}
+	}
 	n := cfg.n(5000, 300000)
 	for i := 0; i < n; i++ {
 		switch i % 5 {
